@@ -11,7 +11,7 @@ import itertools
 
 from mc.engine.core import Collector, Result, Violation
 
-BOUNDS = {"quick": dict(nmax=6, steps=(None, 1, 2, 3)), "thorough": dict(nmax=10, steps=(None, 1, 2, 3, 5))}
+BOUNDS = {"quick": dict(nmax=6, steps=(None, 1, 2, 3)), "thorough": dict(nmax=14, steps=(None, 1, 2, 3, 5, 7))}
 
 
 def _mk_handle(n):
@@ -434,7 +434,7 @@ def run(tier: str, seed: int) -> Result:
     for sig, msg in check_unknown():
         col.add(sig, msg, {"unknown": True})
     n_hist = 0
-    for hist in history_cases(4 if tier == "quick" else 5):
+    for hist in history_cases(4 if tier == "quick" else 6):
         n_hist += 1
         for sig, msg in check_history(hist):
             col.add(sig, msg, {"history": hist})
